@@ -279,11 +279,15 @@ func (c *canceller) Preempt(ctx context.Context, req *jsonrpc.Request) (result a
 // request ID and retires the call from the connection's outgoing-calls map.
 func callSubscriptionsListen(ctx context.Context, conn *jsonrpc2.Connection, method string, params Params) error {
 	call := conn.Call(ctx, method, params)
-	// A call started on a connection that has already terminated (or is closing)
-	// is refused at once: report that, as every other call does, instead of
-	// pretending that a stream was opened.
-	if err := call.Err(); errors.Is(err, jsonrpc2.ErrClientClosing) || errors.Is(err, jsonrpc2.ErrServerClosing) {
-		return fmt.Errorf("%w: calling %q: %v", ErrConnectionClosed, method, err)
+	// A call that has already failed when Call returns never reached the peer:
+	// the connection has terminated (or is closing), or the transport refused
+	// the request (for example an HTTP gateway answering 503). Report that, as
+	// every other call does, instead of pretending that a stream was opened.
+	if err := call.Err(); err != nil {
+		if errors.Is(err, jsonrpc2.ErrClientClosing) || errors.Is(err, jsonrpc2.ErrServerClosing) {
+			return fmt.Errorf("%w: calling %q: %v", ErrConnectionClosed, method, err)
+		}
+		return fmt.Errorf("calling %q: %w", method, err)
 	}
 
 	go func() {
